@@ -16,7 +16,8 @@ from vf.hlib import call, cf_guard, fail, notrace, pick, tracing
 ORDER = ["A", "B", "C"]          # C derives from A
 PARENT = {"A": "Base", "B": "Base", "C": "A"}
 TAG = {"A": "a", "B": 0, "C": "", "Base": "base"}   # falsy tags are tags too
-TAGS = ["a", 0, "", "zz", None]  # None = tag absent
+NULL = "<<present with value None>>"
+TAGS = ["a", 0, "", "zz", None, NULL]  # None = tag absent; NULL = key present, JSON null
 
 
 class S_:
@@ -101,7 +102,10 @@ class Family:
 
 def observe(fam, tag, x):
     d = {"x": x, "ya": x + 1, "yb": x + 2, "yc": x + 3}
-    if tag is not None:
+    if tag is NULL:
+        d["type"] = None
+        tag = "<no class carries the tag None>"
+    elif tag is not None:
         d["type"] = tag
     st, r = call(fam.decode, d)
     want = fam.expected(tag)
@@ -130,12 +134,12 @@ def observe(fam, tag, x):
 class HistInput(symval.Node):
     def __init__(self, ctx, k):
         self.k = k
-        # event: 0 define next class, 1..5 decode TAGS[e-1], 6 create decoder
-        self.ev = [ctx.new("k", "int", "0 <= $ < 7") for _ in range(k)]
+        # event: 0 define next class, 1..6 decode TAGS[e-1], 7 create decoder
+        self.ev = [ctx.new("k", "int", "0 <= $ < 8") for _ in range(k)]
         self.x = ctx.new("i", "int")
 
     def make(self, env):
-        return [pick(env[e], 7) for e in self.ev]
+        return [pick(env[e], 8) for e in self.ev]
 
 
 class StepInput(symval.Node):
@@ -145,18 +149,20 @@ class StepInput(symval.Node):
     def __init__(self, ctx):
         self.p = ctx.new("n", "int", "0 <= $ <= 3")
         self.cached = [ctx.new("p", "bool") for _ in ORDER]
-        self.tag = ctx.new("k", "int", "0 <= $ < 5")
+        self.tag = ctx.new("k", "int", "0 <= $ < 6")
         self.more = ctx.new("b", "bool")
         self.x = ctx.new("i", "int")
 
     def make(self, env):
-        return (pick(env[self.p], 4), [bool(env[c]) for c in self.cached], pick(env[self.tag], 5), bool(env[self.more]))
+        return (pick(env[self.p], 4), [bool(env[c]) for c in self.cached], pick(env[self.tag], 6), bool(env[self.more]))
 
 
 def make_input_plan(T, variant, k=3, **kw):
     ctx = symval.Ctx()
     if variant == "step":
         return ctx, StepInput(ctx)
+    if variant == "nofield":
+        return ctx, NoFieldInput(ctx)
     return ctx, HistInput(ctx, k)
 
 
@@ -181,7 +187,7 @@ def run_history(S, events, x_last, x_sym):
             if nxt < len(ORDER):
                 fam.define(ORDER[nxt])
                 nxt += 1
-        elif e == 6:
+        elif e == 7:
             if fam.style == "codec":
                 fam.make_decoder()
         else:
@@ -248,11 +254,105 @@ def step_main(S, env):
     return True
 
 
+# ------------------------------------------------------------------ no-field mode
+class Poison(Exception):
+    pass
+
+
+class NoFieldInput(symval.Node):
+    def __init__(self, ctx):
+        self.keys = {k: ctx.new("p", "bool") for k in ("ya", "yb", "yc")}
+        self.poison = ctx.new("b", "bool")
+        self.x = ctx.new("i", "int")
+
+    def make(self, env):
+        return {k: bool(env[v]) for k, v in self.keys.items()}, bool(env[self.poison])
+
+
+def build_nofield(style, supertypes):
+    """Base(x) <- A(ya required) <- C(yc required); Base <- B(yb required).  A.__post_init__ rejects x == 13 with an
+    exception type of its own (a constructor may reject an input with any exception)."""
+    bases = (DataClassDictMixin,)
+    disc = Discriminator(include_subtypes=True, include_supertypes=supertypes)
+    ns = lambda q: {"__module__": __name__, "__qualname__": q}
+    nsb = ns("NBase")
+    if style == "config":
+        nsb["Config"] = type("Config", (BaseConfig,), {"discriminator": Discriminator(include_subtypes=True)})
+    Base = dataclasses.make_dataclass("NBase", [("x", int)], bases=bases, namespace=nsb)
+    globals()["NBase"] = Base
+
+    def post_init(self):
+        if self.x == 13:
+            raise Poison(self.x)
+
+    nsa = ns("NA")
+    nsa["__post_init__"] = post_init
+    A = dataclasses.make_dataclass("NA", [("ya", int)], bases=(Base,), namespace=nsa)
+    globals()["NA"] = A
+    B = dataclasses.make_dataclass("NB", [("yb", int)], bases=(Base,), namespace=ns("NB"))
+    globals()["NB"] = B
+    C = dataclasses.make_dataclass("NC", [("yc", int)], bases=(A,), namespace=ns("NC"))
+    globals()["NC"] = C
+    if style == "config":
+        dec = Base.from_dict
+    elif style == "annotated":
+        H = dataclasses.make_dataclass("NHolder", [("v", typing.Annotated[Base, disc])], bases=bases, namespace=ns("NHolder"))
+        globals()["NHolder"] = H
+        dec = lambda d: H.from_dict({"v": d}).v
+    else:
+        dec = BasicDecoder(typing.Annotated[Base, disc]).decode
+    return {"Base": Base, "A": A, "B": B, "C": C}, dec
+
+
+def nofield_main(S, env):
+    present, poison = S.node.make(env)
+    with notrace():
+        classes, dec = build_nofield(S.fam_args["style"], S.fam_args["supertypes"])
+        x = 13 if poison else 5
+        d = {"x": x}
+        for k, on in present.items():
+            if on:
+                d[k] = 1
+        need = {"A": ["ya"], "B": ["yb"], "C": ["ya", "yc"]}
+
+        def accepts(n):
+            if n == "Base":
+                return True
+            if any(k not in d for k in need[n]):
+                return False
+            return not (poison and n in ("A", "C"))
+
+        subs = [n for n in ("A", "B", "C") if accepts(n)]
+        st, r = call(dec, d)
+        if st == "exc" and isinstance(r, InvalidFieldValue) and S.fam_args["style"] == "annotated":
+            r = r.__context__ or r
+        supert = S.fam_args["supertypes"] and S.fam_args["style"] != "config"
+        if subs:
+            if st != "ok":
+                return fail("C12/no-field:accepting-subclass-not-tried:%s" % type(r).__name__, input=d, accepting=subs, exc=r)
+            if type(r).__name__[1:] not in subs:
+                return fail("C12/no-field:wrong-class", input=d, got=type(r).__name__, accepting=subs)
+        elif supert:
+            if st != "ok" or type(r) is not classes["Base"]:
+                return fail("C12/no-field:supertype-not-used", input=d, got=r)
+        else:
+            if st == "ok" or not isinstance(r, SuitableVariantNotFoundError):
+                return fail("C12/no-field:expected-SuitableVariantNotFoundError", input=d, got=r)
+    return True
+
+
 def main(S, env):
+    if S.variant == "nofield":
+        return nofield_main(S, env)
     return step_main(S, env) if S.variant == "step" else hist_main(S, env)
 
 
 def twin(S, env):
+    if S.variant == "nofield":
+        present, poison = S.node.make(env)
+        if not (poison and present["yb"] and present["ya"]):
+            return True
+        return not main(S, env)
     if S.variant == "step":
         p, cached, tsel, more = S.node.make(env)
         if not (p == 2 and more and tsel == 2 and cached[0] and not cached[1]):
